@@ -11,6 +11,11 @@ FLOAT_CALLS = {"FLOAT", "DOUBLE", "fUNFLOAT", "fUNDOUBLE", "HEX_GET_INSN_RMODE",
                "HEX_D_TO_INT", "IS_INF", "IS_FINF"}
 
 
+# calls whose names begin with f but are integer sub-routines / built-ins (everything else beginning with f is one of QEMU's
+# floating point helper macros)
+NOT_FLOAT = {"fcirc_add", "fbrev", "fatal"}
+
+
 def parse_param(decl):
     """'int32_t offset' / 'const HexOp *RxV' -> {n, t, kind}"""
     m = re.match(r"^(.*?)(\w+)$", decl.strip())
@@ -43,7 +48,7 @@ def uses_float(body):
     found = []
 
     def f(n):
-        if n.get("k") == "call" and (n["f"] in FLOAT_CALLS or n["f"].startswith("f")):
+        if n.get("k") == "call" and (n["f"] in FLOAT_CALLS or (n["f"].startswith("f") and n["f"] not in NOT_FLOAT)):
             found.append(n["f"])
         if n.get("k") in ("decl", "cast") and "nonint" in n.get("t", {}):
             found.append("type")
